@@ -51,7 +51,7 @@ def check(run):
     if bad is not None:
         run.oblige("corr:Model.UrlRec get_href/get_href_size/get_components = ada::url on every state", not bad, str(bad[:2])[:900])
     # the Lean model of ada::url's setters (Props/C03.url_setters_end_to_end, Props/C04.*_agrees) replayed on every real step
-    bad = reccorr.check_setters(run, res)
+    bad = reccorr.check_setters(run, res, binp=binp)
     if bad is not None:
         run.oblige("corr:L1 Model.UrlSetters = ada::url set_username/password/port/hash/search/pathname on every step", not bad,
                    str(bad[:2])[:1200])
